@@ -6,7 +6,7 @@ UNITS = [keys.unlock_unit('C05'), keys.init_unit('C05'), keys.add_key_inner_unit
          snapbody.encrypt_body_unit('C05'), loc.chunk_loc_unit('C05')] + misc.aead_units('C05') + loc.parts_units('C05') + loc.loc_units('C05')[:2] + keys.make_key_units('C05')
 from specs import families as _families
 UNITS = _families.with_families('C05', UNITS)
-BOUNDED = [{'name': 'C05.e2e_scan', 'script': 'bounded/c14_reference.py', 'timeout': 900, 'args': {'prop': 'C05'}, 'bound': 'encrypted configurations (2, thorough: 3): every stored object, every object name and the key file are searched for marker plaintexts (file content, file name, note, file digest, chunk digest, source directory) in raw, hex and base64 form; the independent reader must still decode everything; then 7 further runs with fresh Repository objects (same tree again, a tree of one empty file, add-key, delete + clean) and one long-lived object (snapshot, delete, clean, snapshot again): all nonces at rest (chunks, both sections of every snapshot body, private section of every key) pairwise distinct, and the marker scan repeated; a run on a store whose existence check answers no for fresh chunk objects (every occurrence of a repeated chunk is uploaded): every payload handed to the backend is scanned for a repeated record, zero runs and the markers'}]
+BOUNDED = [{'name': 'C05.e2e_scan', 'script': 'bounded/c14_reference.py', 'timeout': 900, 'args': {'prop': 'C05'}, 'bound': 'encrypted configurations (2, thorough: 3): every stored object, every object name and the key file are searched for marker plaintexts (file content, file name, note, file digest, chunk digest, source directory) in raw, hex and base64 form; the independent reader must still decode everything; then 7 further runs with fresh Repository objects (same tree again, a tree of one empty file, add-key, delete + clean) and one long-lived object (snapshot, delete, clean, snapshot again): all nonces at rest (chunks, both sections of every snapshot body, private section of every key) pairwise distinct, and the marker scan repeated; a run on a store whose existence check answers no for fresh chunk objects (every occurrence of a repeated chunk is uploaded): every payload handed to the backend is scanned for a repeated record, zero runs and the markers; 100 snapshots by ONE long-lived object (> 300 encryptions by the same cipher object) before the last nonce harvest'}]
 TRUSTED = [
     'vf symbolic executor (/verif/vf): encoding of the Python subset (DESIGN 2.2)',
     'z3 5.1 (API + z3-new CLI), cvc5 1.0.3 (strings)',
